@@ -190,6 +190,9 @@ static void forward(LEG *g, int dir)
 			applied = sc.fault;
 			if (!strcmp(sc.fault, "flip")) { if ((size_t)(5 + sc.off) < rl) rec[5 + sc.off] ^= (uint8_t)(1 << sc.bit); else applied = "none"; }
 			else if (!strcmp(sc.fault, "hdrflip")) { rec[sc.off % 5] ^= (uint8_t)(1 << sc.bit); }
+			else if (!strcmp(sc.fault, "setb")) { if ((size_t)(5 + sc.off) < rl) rec[5 + sc.off] = (uint8_t)sc.bit; else applied = "none"; }          // set a body byte (length fields!) to a value
+			else if (!strcmp(sc.fault, "cut")) { if ((size_t)sc.off < rl - 5) { outl = 5 + (size_t)sc.off; rec[3] = (uint8_t)(sc.off >> 8); rec[4] = (uint8_t)sc.off; } else applied = "none"; } // consistent record, truncated message
+			else if (!strcmp(sc.fault, "pad")) { size_t add = (size_t)sc.bit * 64; if (rl + add < sizeof rec) { memset(rec + rl, 0xAA, add); outl = rl + add; rec[3] = (uint8_t)((outl - 5) >> 8); rec[4] = (uint8_t)(outl - 5); } else applied = "none"; }
 			else if (!strcmp(sc.fault, "drop")) drop = 1;
 			else if (!strcmp(sc.fault, "dup")) dup = 1;
 			else if (!strcmp(sc.fault, "swap")) hold = 1;
